@@ -159,9 +159,9 @@ ChkFont(e) ==
       box == e.q_box
       ne  == NonEmptyIdx(box)
   IN IF ~(/\ n >= 1 /\ upm >= 1
-          /\ Len(e.w2) = n /\ Len(e.wlo) = n /\ Len(e.whi) = n /\ Len(e.npts) = n
+          /\ Len(e.wq) = n /\ Len(e.wlo) = n /\ Len(e.whi) = n /\ Len(e.npts) = n
           /\ Len(e.on) = n /\ Len(e.onin) = n /\ Len(e.all) = n /\ Len(box) = n
-          /\ Len(e.q_gw2) = n /\ Len(e.q_gwpdf) = n /\ Len(e.q_boxpdf) = n /\ Len(e.q_wmap) = n
+          /\ Len(e.q_gwq) = n /\ Len(e.q_gwpdf) = n /\ Len(e.q_boxpdf) = n /\ Len(e.q_wmap) = n
           /\ e.wrote
           /\ Len(e.hhea) = HheaWords /\ AllWords(e.hhea) /\ AllWords(e.hm)
           /\ HmtxShape(n, W(e.hhea, 17), e.hm)
@@ -177,10 +177,10 @@ ChkFont(e) ==
       glyph_boxes_list |-> e.q_boxes = box,
       font_bbox     |-> ne # {} => e.q_fbox = UnionBox(box),
       \* advance widths in design units and in PDF units
-      widths        |-> e.q_w2 = e.w2 /\ e.q_gw2 = e.w2,
-      glyph_width_pdf |-> \A i \in 1..n : Near(e.q_gwpdf[i], Micro(e.w2[i], upm)),
-      widths_pdf    |-> Len(e.q_wpdf) = n /\ \A i \in 1..n : Near(e.q_wpdf[i], Micro(e.w2[i], upm)),
-      widths_map_pdf |-> e.has_wmap => \A i \in 1..n : Near(e.q_wmap[i], Micro(e.w2[i], upm)),
+      widths        |-> e.q_wq = e.wq /\ e.q_gwq = e.wq,
+      glyph_width_pdf |-> \A i \in 1..n : Near(e.q_gwpdf[i], MicroQ(e.wq[i], upm)),
+      widths_pdf    |-> Len(e.q_wpdf) = n /\ \A i \in 1..n : Near(e.q_wpdf[i], MicroQ(e.wq[i], upm)),
+      widths_map_pdf |-> e.has_wmap => \A i \in 1..n : Near(e.q_wmap[i], MicroQ(e.wq[i], upm)),
       \* glyph and font boxes in PDF units
       glyph_bbox_pdf |-> \A i \in 1..n :
                            /\ e.npts[i] = 0 => e.q_boxpdf[i] = Zero4
@@ -188,7 +188,7 @@ ChkFont(e) ==
                            /\ (e.fkind = "ttf" /\ e.npts[i] # 0) => NearBox(e.q_boxpdf[i], MicroBox(box[i], upm)),
       font_bbox_pdf |-> LET nz == {i \in 1..n : e.q_boxpdf[i] # Zero4} IN
                         nz # {} => NearBox(e.q_fboxpdf, UnionBox(e.q_boxpdf)),
-      fixed_pitch   |-> FixedPitchOK(e.q_fixed, e.wlo, e.whi),
+      fixed_pitch   |-> FixedPitchOK(e.q_fixed, e.wq),
       \* the written file
       hmtx_widths   |-> \A i \in 1..n : d.w[i] >= e.wlo[i] /\ d.w[i] <= e.whi[i],
       hhea_advmax   |-> JudgeAdvMax(d.w, e.hhea),
